@@ -31,11 +31,11 @@ Proof.
   induction ops as [|o r IH]; intro s; cbn [lrun all_events crun]; [split; reflexivity|].
   rewrite crun_app. unfold lstep at 1 3.
   destruct (crun (l_task s) (events_of s o)) as [t1 n1] eqn:E1. cbn [fst].
-  specialize (IH (mkL t1 (handles_after s o) (l_tbl s))). cbn [l_task] in IH.
+  specialize (IH (mkL t1 (handles_after s o) (l_tbl s) (pend_after s o))). cbn [l_task] in IH.
   unfold lstep. rewrite E1.
-  destruct (lrun (mkL t1 (handles_after s o) (l_tbl s)) r) as [s2 n2]. cbn [fst snd] in *.
+  destruct (lrun (mkL t1 (handles_after s o) (l_tbl s) (pend_after s o)) r) as [s2 n2]. cbn [fst snd] in *.
   destruct IH as [IH1 IH2].
-  destruct (crun t1 (all_events (mkL t1 (handles_after s o) (l_tbl s)) r)) as [t3 n3]. cbn [fst snd] in *.
+  destruct (crun t1 (all_events (mkL t1 (handles_after s o) (l_tbl s) (pend_after s o)) r)) as [t3 n3]. cbn [fst snd] in *.
   split; congruence.
 Qed.
 
@@ -51,10 +51,10 @@ Lemma whole_run_is_conn_run al fb ops :
   exists es, conn_run al true es = (Some (l_task (fst (whole_run al fb ops))), snd (whole_run al fb ops)).
 Proof.
   unfold whole_run, linit, conn_run. rewrite accept_spec.
-  set (s0 := mkL (mkTask al true None) al (mk_tbl (length al) fb)).
+  set (s0 := mkL (mkTask al true None) al (mk_tbl (length al) fb) 0).
   unfold lsettle.
   destruct (crun (l_task s0) (settle_events s0)) as [t1 n1] eqn:E1.
-  set (s1 := mkL t1 (l_handle s0) (l_tbl s0)).
+  set (s1 := mkL t1 (l_handle s0) (l_tbl s0) (l_pend s0)).
   destruct (lrun_is_crun ops s1) as [H1 H2].
   destruct (lrun s1 ops) as [s2 n2]. cbn [fst snd] in *.
   exists (settle_events s0 ++ all_events s1 ops).
@@ -95,7 +95,7 @@ Qed.
 (* the command channel: a running connection is held by someone; when the last strong sender  *)
 (* goes, the connection is closed (idle expiry / every protocol released it)                   *)
 
-Definition LInv (s : lst) : Prop := running s = true -> any_held (l_handle s) = true.
+Definition LInv (s : lst) : Prop := running s = true -> any_strong (l_handle s) (l_pend s) = true.
 
 Lemma running_crun_nil s : crun (l_task s) [] = (l_task s, []).
 Proof. reflexivity. Qed.
@@ -115,24 +115,41 @@ Qed.
 Lemma any_held_all_false (h : list bool) : any_held (map (fun _ => false) h) = false.
 Proof. induction h as [|a r IH]; [reflexivity|exact IH]. Qed.
 
+Lemma pend_after_mono s o : (l_pend s <= pend_after s o)%nat.
+Proof.
+  unfold pend_after. destruct (negb (rc_of s o =? 0)); [lia|].
+  destruct o; try lia; match goal with |- context [if ?c then _ else _] => destruct c end; lia.
+Qed.
+
+Lemma any_strong_mono h p q : (p <= q)%nat -> any_strong h p = true -> any_strong h q = true.
+Proof.
+  unfold any_strong. intros L H. destruct (any_held h); [reflexivity|]. cbn [orb] in *.
+  destruct p; [discriminate|]. destruct q; [lia|reflexivity].
+Qed.
+
 Lemma linv_step s o : LInv s -> LInv (fst (lstep s o)).
 Proof.
   intros I. unfold lstep. destruct (crun (l_task s) (events_of s o)) as [t1 n1] eqn:E. cbn [fst].
-  unfold LInv, running. cbn [l_task l_handle]. intro R.
+  unfold LInv, running. cbn [l_task l_handle l_pend]. intro R.
   assert (G1 : gone t1 = None) by (destruct (gone t1); [discriminate|reflexivity]).
   assert (G0 : gone (l_task s) = None).
   { apply (crun_running_mono _ (events_of s o)). now rewrite E. }
   assert (R0 : running s = true) by (unfold running; now rewrite G0).
-  specialize (I R0).
-  destruct o as [i a|nm k|i|i|i| |arm|arm]; cbn [handles_after]; try exact I.
-  - (* LDrop: if it was the last handle, the loop has seen `None` and ended *)
-    destruct (i <? nprot s)%nat eqn:Hi; [|exact I].
-    destruct (any_held (set_nth i false (l_handle s))) eqn:H; [reflexivity|exfalso].
+  specialize (I R0). pose proof (pend_after_mono s o) as PM.
+  destruct o as [i a|nm k|i|i|i| |arm|nm arm]; cbn [handles_after];
+    try (exact (any_strong_mono _ _ _ PM I)).
+  - (* LDrop: if it was the last strong sender, the loop has seen `None` and ended *)
+    assert (PE : pend_after s (LDrop i) = l_pend s) by (unfold pend_after; destruct (negb _); reflexivity).
+    rewrite PE. destruct (i <? nprot s)%nat eqn:Hi; [|exact I].
+    destruct (any_strong (set_nth i false (l_handle s)) (l_pend s)) eqn:H; [reflexivity|exfalso].
     unfold events_of in E. cbn [rc_of] in E. rewrite Hi, N.eqb_refl in E. cbn [negb] in E.
     rewrite R0, H in E. cbn [andb negb] in E.
     pose proof (cause_ends (l_task s) (ECmd CNone) G0 eq_refl) as C. rewrite E in C. cbn [fst] in C. congruence.
   - (* LRace *)
-    rewrite R0. exfalso. unfold events_of in E. cbn [rc_of] in E. rewrite R0, N.eqb_refl in E. cbn [negb] in E.
+    assert (PE : pend_after s (LRace nm arm) = l_pend s) by (unfold pend_after; destruct (negb _); reflexivity).
+    rewrite PE, R0. unfold any_strong. rewrite any_held_all_false. cbn [orb].
+    destruct (l_pend s =? 0)%nat eqn:P; [exfalso|reflexivity].
+    unfold events_of in E. cbn [rc_of] in E. rewrite R0, N.eqb_refl in E. cbn [negb] in E. rewrite P in E.
     assert (C : is_cause (if arm =? 1 then EYamux (YSub false) else ECmd CNone) = true) by (destruct (arm =? 1); reflexivity).
     pose proof (cause_ends (l_task s) _ G0 C) as C1. rewrite E in C1. cbn [fst] in C1. congruence.
 Qed.
@@ -144,12 +161,12 @@ Proof.
   specialize (IH s1 I1). destruct (lrun s1 r) as [s2 n2]. exact IH.
 Qed.
 
-Lemma linv_settle s : LInv (fst (lsettle s)).
+Lemma linv_settle s : l_pend s = 0%nat -> LInv (fst (lsettle s)).
 Proof.
-  unfold lsettle, settle_events, LInv.
+  intro P0. unfold lsettle, settle_events, LInv.
   destruct (running s) eqn:R; cbn [andb].
   - destruct (any_held (l_handle s)) eqn:H; cbn [negb].
-    + cbn [crun fst l_handle]. auto.
+    + cbn [crun fst l_handle l_pend]. unfold any_strong. rewrite H. auto.
     + assert (G : gone (l_task s) = None) by (unfold running in R; destruct (gone (l_task s)); [discriminate|reflexivity]).
       pose proof (cause_ends (l_task s) (ECmd CNone) G eq_refl) as C.
       destruct (crun (l_task s) [ECmd CNone]) as [t1 n1]. cbn [fst] in *.
@@ -160,9 +177,11 @@ Qed.
 (* a connection that is still running after any script is held by some protocol: as soon as the last
    handle is dropped the loop has ended (and, by loop_lifecycle, everyone was told) *)
 Theorem loop_running_is_held al fb ops :
-  let s := fst (whole_run al fb ops) in running s = true -> any_held (l_handle s) = true.
+  let s := fst (whole_run al fb ops) in running s = true -> any_strong (l_handle s) (l_pend s) = true.
 Proof.
-  unfold whole_run. destruct (linit al fb) as [s0 n0]. pose proof (linv_settle s0) as I.
+  unfold whole_run.
+  assert (P0 : l_pend (fst (linit al fb)) = 0%nat) by (unfold linit; destruct (accept al true) as [[t|] ns]; reflexivity).
+  destruct (linit al fb) as [s0 n0]. cbn [fst] in P0. pose proof (linv_settle s0 P0) as I.
   destruct (lsettle s0) as [s1 n1]. cbn [fst] in I. pose proof (linv_run ops s1 I) as I2.
   destruct (lrun s1 ops) as [s2 n2]. exact I2.
 Qed.
@@ -174,8 +193,9 @@ Definition ends_conn (s : lst) (o : lop) : bool :=
   running s &&
   match o with
   | LForce i => rc_of s o =? 0
-  | LRemoteClose _ | LRace _ => true
-  | LDrop i => (i <? nprot s)%nat && negb (any_held (set_nth i false (l_handle s)))
+  | LRemoteClose _ => true
+  | LRace _ _ => (l_pend s =? 0)%nat
+  | LDrop i => (i <? nprot s)%nat && negb (any_strong (set_nth i false (l_handle s)) (l_pend s))
   | _ => false
   end.
 
@@ -204,11 +224,12 @@ Proof.
   assert (YC : forall e, events_of s o = [e] -> is_cause e = true -> gone t1 <> None).
   { intros e Hes H. pose proof (cause_ends (l_task s) e G H) as X. rewrite <- Hes, E in X. exact X. }
   unfold events_of in NC, YC.
-  destruct o as [i a|nm k|i|i|i| |arm|arm]; cbn [rc_of] in *; rewrite ?R in *; cbn [andb negb] in *.
+  destruct o as [i a|nm k|i|i|i| |arm|nm arm]; cbn [rc_of] in *; rewrite ?R in *; cbn [andb negb] in *.
   - (* LOpen *) rewrite (NC _ eq_refl); [split; discriminate|].
     destruct (i <? nprot s)%nat; [|reflexivity]. destruct (held s i); cbn; [|reflexivity].
-    destruct (a =? 0); reflexivity.
+    destruct (a =? 4); [reflexivity|]. destruct (a =? 0); reflexivity.
   - rewrite N.eqb_refl in NC. cbn [negb] in NC. rewrite (NC _ eq_refl); [split; discriminate|].
+    destruct (k =? 4); [reflexivity|]. unfold neg_result.
     destruct (k =? 0); [destruct (negotiated (l_tbl s) nm)|]; reflexivity.
   - (* LForce *)
     destruct (i <? nprot s)%nat; cbn [negb] in *.
@@ -220,7 +241,7 @@ Proof.
   - (* LDrop *)
     destruct (i <? nprot s)%nat; cbn [negb andb] in *.
     + rewrite N.eqb_refl in *. cbn [negb] in *.
-      destruct (any_held (set_nth i false (l_handle s))); cbn [negb] in *.
+      destruct (any_strong (set_nth i false (l_handle s)) (l_pend s)); cbn [negb] in *.
       * rewrite (NC _ eq_refl eq_refl). split; discriminate.
       * pose proof (YC _ eq_refl eq_refl) as X. destruct (gone t1); [tauto|congruence].
     + change (2 =? 0) with false in *. cbn [negb] in *. rewrite (NC _ eq_refl eq_refl). split; discriminate.
@@ -231,9 +252,12 @@ Proof.
   - rewrite N.eqb_refl in YC. cbn [negb] in YC.
     assert (C : is_cause (EYamux (if arm =? 2 then YErr else YEof)) = true) by (destruct (arm =? 2); reflexivity).
     pose proof (YC _ eq_refl C) as X. destruct (gone t1); [tauto|congruence].
-  - rewrite N.eqb_refl in YC. cbn [negb] in YC.
-    assert (C : is_cause (if arm =? 1 then EYamux (YSub false) else ECmd CNone) = true) by (destruct (arm =? 1); reflexivity).
-    pose proof (YC _ eq_refl C) as X. destruct (gone t1); [tauto|congruence].
+  - rewrite N.eqb_refl in YC, NC. cbn [negb] in YC, NC.
+    destruct (l_pend s =? 0)%nat.
+    + assert (C : is_cause (if arm =? 1 then EYamux (YSub false) else ECmd CNone) = true) by (destruct (arm =? 1); reflexivity).
+      pose proof (YC _ eq_refl C) as X. destruct (gone t1); [tauto|congruence].
+    + rewrite (NC _ eq_refl); [split; discriminate|]. unfold neg_result.
+      destruct (negotiated (l_tbl s) nm); reflexivity.
 Qed.
 
 (* ------------------------------------------------------------------------------------------ *)
@@ -295,20 +319,25 @@ Theorem loop_events_in_range s o e fb :
 Proof.
   intros T HIn L t Hl. unfold events_of in HIn.
   destruct (negb (rc_of s o =? 0)) eqn:RC; [destruct HIn|].
-  destruct o as [i a|nm k|i|i|i| |arm|arm]; cbn [In] in HIn.
-  - destruct HIn as [<-|[<-|[]]]; [reflexivity|].
+  destruct o as [i a|nm k|i|i|i| |arm|nm arm]; cbn [In] in HIn.
+  - destruct HIn as [<-|HIn]; [reflexivity|]. destruct (a =? 4); [destruct HIn|]. destruct HIn as [<-|[]].
     destruct (a =? 0); [|reflexivity]. cbn [in_range]. rewrite Hl.
     cbn [rc_of] in RC. destruct (i <? nprot s)%nat eqn:Hi; [reflexivity|]. discriminate RC.
-  - destruct HIn as [<-|[<-|[]]]; [reflexivity|].
-    destruct (k =? 0); [|reflexivity]. destruct (negotiated (l_tbl s) nm) as [i|] eqn:Ng; [|reflexivity].
+  - destruct HIn as [<-|HIn]; [reflexivity|]. destruct (k =? 4); [destruct HIn|]. destruct HIn as [<-|[]].
+    destruct (k =? 0); [|reflexivity]. unfold neg_result.
+    destruct (negotiated (l_tbl s) nm) as [i|] eqn:Ng; [|reflexivity].
     cbn [in_range]. rewrite Hl. rewrite T in Ng. apply negotiated_in_range in Ng. now apply Nat.ltb_lt.
   - destruct HIn as [<-|[]]. reflexivity.
-  - destruct (running s && negb (any_held (set_nth i false (l_handle s)))); [|destruct HIn].
+  - destruct (running s && negb (any_strong (set_nth i false (l_handle s)) (l_pend s))); [|destruct HIn].
     destruct HIn as [<-|[]]. reflexivity.
   - destruct HIn as [<-|[]]. discriminate L.
   - destruct HIn as [<-|[]]. discriminate L.
   - destruct HIn as [<-|[]]. destruct (arm =? 2); reflexivity.
-  - destruct HIn as [<-|[]]. destruct (arm =? 1); reflexivity.
+  - destruct (l_pend s =? 0)%nat.
+    + destruct HIn as [<-|[]]. destruct (arm =? 1); reflexivity.
+    + destruct HIn as [<-|[<-|[]]]; [reflexivity|]. unfold neg_result.
+      destruct (negotiated (l_tbl s) nm) as [i|] eqn:Ng; [|reflexivity].
+      cbn [in_range]. rewrite Hl. rewrite T in Ng. apply negotiated_in_range in Ng. now apply Nat.ltb_lt.
 Qed.
 
 (* ------------------------------------------------------------------------------------------ *)
